@@ -325,7 +325,10 @@ func (dr DateRange) ParseError() error {
 
 func (dr DateRange) String() string {
 	start, end := dr.StartAndEndDates()
-	if start.Equals(end) {
+
+	// Is, not Equals: "3 Sep 1900" and "Bef. Mar 1950" are Equals (one could
+	// be the other) but they are two different ends of a range.
+	if start.Is(end) {
 		return start.String()
 	}
 
